@@ -8,7 +8,11 @@ from lib.common import model_run, src_hashes
 PID = "C04"
 RULE = ("search: generated documents of nested blocks (block quotes, bullet/ordered lists, backtick and colon directives "
         "note/tip/warning/admonition with no/colon/dash option block, 0-3 blank lines before and 0-2 after the body, plain ::: divs, "
-        "{include} of generated files with start-line/start-after/end-before, nesting depth <= 5) in which every leaf "
+        "{include} of generated files with start-line/start-after/end-before, nesting depth <= 5; "
+        "directives that reach the other line-carrying mock methods - epigraph/pull-quote/highlights (block_quote + attribution), "
+        "topic/sidebar/admonition/rubric/table/list-table titles and parsed-literal (inline_text), line-block, role "
+        "(parse_directive_block), compound/container, image/figure/code-block - each with 0-2 blank lines before the body, at top "
+        "level and nested) in which every leaf "
         "(paragraph, heading, fenced/indented code, target, unknown role, unknown directive, unknown option) carries a unique "
         "marker; oracle: node.line == 1-based line of the construct in its file and node.source == that file, for "
         "paragraph/title/section/rubric/literal_block/target/bullet_list/enumerated_list/list_item/block_quote/admonitions/"
@@ -19,7 +23,9 @@ RULE = ("search: generated documents of nested blocks (block quotes, bullet/orde
 TRUSTED = ["gen/c04_linessrc.py: the arithmetic expressions of token_line, _render_tokens, nested_render_text, run_directive "
            "(content_offset, warning line), MockState.nested_parse, MockIncludeDirective.run (lineno, start-after advance) located "
            "structurally and regenerated into coq/Gen/LinesSrc.v; coq/Dir/Lines.v computes every line through them "
-           "(C04_arithmetic_src); trusted: the site location and the mapping Python int -> Z, token.map[i] -> map_i, "
+           "(C04_arithmetic_src); likewise MockState.block_quote (offset handed to nested_parse, attribution lineno and line), "
+           "MockInliner.parse (lineno handed to nested_render_text), MockState.parse_directive_block, "
+           "MockStateMachine.get_source_and_line (C04_mock_methods_src, C04_directive_title_offset); trusted: the site location and the mapping Python int -> Z, token.map[i] -> map_i, "
            "attribute -> parameter, str.count('\\n', 0, e) -> count_nl_upto",
            "coq/Dir/Lines.v is a hand transcription of the control structure around that arithmetic in _render_tokens / nested_render_text / "
            "render_directive / run_directive / MockState.nested_parse / MockIncludeDirective.run",
@@ -30,6 +36,11 @@ ORACLES = {
              "every generated document (the oracle compares against positions known by construction)",
     "O_fence_content": "a fence token's content is exactly the lines between the fences (container prefixes removed): "
                        "directives inside quotes/lists in the generated documents",
+    "O_parse_ok": "Section hypothesis of coq/Dir/LinesProofs.v (C04_lines_nested): parse_directive_text succeeds on the printed "
+                  "directive content (no MarkupError, the option block tokenizes); C04_parse_ok_when discharges it for classes "
+                  "without arguments once the tokenizer accepts the block, C04_lines_nested_c07 discharges it with the C07 model; "
+                  "exercised by every correspondence document with a directive (the model runs parse_directive_text on the "
+                  "printed content and the implementation must place the body where the model says)",
     "O_adm": "admonition-type directives nested_parse their content at content_offset: note/tip/warning/admonition cases",
     "tokenize": "options_to_items on the printed option lines (C07/C08 oracle); C04_lines_nested_c07 instantiates it with the C07 "
                 "model, whose C07_only_tokenize_error discharges the accepts-every-text premise for classes without arguments",
@@ -41,7 +52,15 @@ ASSUMPTIONS = ["docutils front end (publish with MyST Parser); line numbers obse
                "(colon style reports the former, dash style the latter; both pinned by the repository's fixtures)"]
 
 EXT = ["colon_fence", "deflist", "fieldlist", "dollarmath", "amsmath"]
-ADM = {"note": "note", "tip": "tip", "warning": "warning", "admonition": "admonition"}
+# container-type directives -> the node they produce.  Beyond the admonitions (which call state.nested_parse themselves):
+# epigraph / pull-quote / highlights go through MockState.block_quote (+ attribution), topic / sidebar through
+# inline_text (title) + nested_parse, compound / container through nested_parse.
+ADM = {"note": "note", "tip": "tip", "warning": "warning", "admonition": "admonition",
+       "epigraph": "block_quote", "pull-quote": "block_quote", "highlights": "block_quote",
+       "topic": "topic", "sidebar": "sidebar", "compound": "compound", "container": "container"}
+TITLED = ("admonition", "topic", "sidebar")          # need an argument (the title)
+QUOTED = ("epigraph", "pull-quote", "highlights")    # no option_spec, body through state.block_quote
+NO_CLASS_OPT = QUOTED + ("container",)
 
 
 def gen(ctx):
@@ -116,8 +135,59 @@ XLEAF = {
                                f"| td mk{_m(b,2)} | 2 |", "```"],
                  [("table", 0, 3), ("title", 0, 0), ("row", 1, 3), ("paragraph", 1, 3), ("row", 2, 5), ("paragraph", 2, 5)]),
 }
-XWARN = {"para3": [("rmk", 0, 0, "role")]}
-BACKTICK_LEAVES = ("figure", "codeblock", "tabledir")
+def _bb(b):
+    return [""] * b.p.get("bb", 0)
+
+
+# directives whose body goes through other MockState / MockInliner methods, each with 0-2 blank lines before the body
+XLEAF.update({
+    # LineBlock: state.inline_text(line, self.lineno + self.content_offset) per line, then nest_line_block_lines
+    "lineblock": (1, lambda b: ["```{line-block}"] + _bb(b) + [f"line mk{_m(b,0)} {{rmk{_m(b,0)}}}`x`",
+                                                                f"  second mk{_m(b,1)} {{rmk{_m(b,1)}}}`x`", "```"],
+                  [("line_block", 0, 0, "inherit")]),
+    # ParsedLiteral: state.inline_text(text, self.lineno); node.line = content_offset + 1
+    "parsedlit": (0, lambda b: ["```{parsed-literal}"] + _bb(b) + [f"lit mk{_m(b,0)} {{rmk{_m(b,0)}}}`x`", "```"],
+                  [("literal_block", 0, "body")]),
+    # titles through state.inline_text(title, self.lineno)
+    "rubricdir": (0, lambda b: [f":::{{rubric}} Rubric mk{_m(b,0)} {{rmk{_m(b,0)}}}`x`", ":::"], [("rubric", 0, 0, "inherit")]),
+    "topictitle": (1, lambda b: [f":::{{topic}} Topic mk{_m(b,0)} {{rmk{_m(b,0)}}}`x`"] + _bb(b) + [f"body mk{_m(b,1)}", ":::"],
+                   [("topic", 0, 0), ("paragraph", 1, "body")]),
+    "admtitle": (1, lambda b: [f":::{{admonition}} Adm mk{_m(b,0)} {{rmk{_m(b,0)}}}`x`"] + _bb(b) + [f"body mk{_m(b,1)}", ":::"],
+                 [("admonition", 0, 0), ("paragraph", 1, "body")]),
+    # Contents: title through state.inline_text(title, self.lineno); only directly in the document / a section
+    "contentsdir": (0, lambda b: [f":::{{contents}} Contents mk{_m(b,0)} {{rmk{_m(b,0)}}}`x`", ":::"], [("topic", 0, 0)]),
+    # Meta: state.nested_list_parse, which the mock does not provide: 'cannot be mocked' error at the directive's line
+    "metadir": (0, lambda b: ["```{meta}"] + _bb(b) + [f":keywords: mk{_m(b,0)}", "```"], []),
+    "imagedir": (0, lambda b: ["```{image} img.png", f":alt: alt mk{_m(b,0)}", "```"], [("image", 0, 0)]),
+    # Role: state.parse_directive_block; its error is reported at self.lineno
+    "roledir": (0, lambda b: [f"```{{role}} rolemk{_m(b,0)}(basemk{_m(b,0)})", "```"], []),
+    # ListTable: nested_parse of a bullet list that becomes the table body
+    "listtable": (2, lambda b: [f":::{{list-table}} LT mk{_m(b,0)}"] + _bb(b) + [f"* - a mk{_m(b,1)} {{rmk{_m(b,1)}}}`x`", "  - b",
+                                                                               f"* - c mk{_m(b,2)}", "  - d", ":::"],
+                  [("title", 0, 0), ("paragraph", 1, "body"), ("paragraph", 2, "body+2")]),
+})
+MOCK_LEAVES = ("lineblock", "parsedlit", "rubricdir", "topictitle", "admtitle", "imagedir", "roledir", "listtable",
+               "contentsdir", "metadir")
+COLON_LEAVES = ("rubricdir", "topictitle", "admtitle", "listtable", "contentsdir")
+TOP_ONLY_LEAVES = ("topictitle", "contentsdir")
+FIXED_ONLY_LEAVES = ("metadir",)      # its error message names no marker: one per document, fixed cases only
+XWARN = {"para3": [("rmk", 0, 0, "role")],
+         "lineblock": [("rmk", 0, "body", "role"), ("rmk", 1, "body+1", "role")],
+         "parsedlit": [("rmk", 0, "body", "role")],
+         "rubricdir": [("rmk", 0, 0, "role")], "topictitle": [("rmk", 0, 0, "role")], "admtitle": [("rmk", 0, 0, "role")],
+         "contentsdir": [("rmk", 0, 0, "role")], "metadir": [("nested_list_parse", None, 0, "mocking-error")],
+         "roledir": [("basemk", 0, 0, "role-directive")],
+         "listtable": [("rmk", 1, "body", "role")]}
+
+
+def _off(b, off):
+    """line offset of a record inside a mock-directive leaf: numbers, or 'body(+k)' = first body line (+k)."""
+    if isinstance(off, int):
+        return off
+    k = int(off[5:]) if len(off) > 4 else 0
+    nopt = 1 if b.kind == "imagedir" else 0
+    return 1 + nopt + b.p.get("bb", 0) + k
+BACKTICK_LEAVES = ("figure", "codeblock", "tabledir", "lineblock", "parsedlit", "imagedir", "roledir", "metadir")
 
 
 class Gen:
@@ -129,15 +199,19 @@ class Gen:
         self.n += 1
         return self.n
 
-    def leaf(self, prev_kind, in_item_first=False):
+    def leaf(self, prev_kind, in_item_first=False, top=False):
         r = self.rng
         kinds = ["para", "para", "para2", "heading", "code", "target", "badrole", "baddir"]
         if not in_item_first and r.random() < 0.45:
             # two adjacent definition / field lists would merge into one (and markdown-it maps the definitions of
             # such a loose list to their term's line)
-            k = r.choice(sorted(x for x in XLEAF if x != prev_kind or x not in ("deflist", "fieldlist")))
+            # docutils allows topic (and sidebar) only directly in the document / a section
+            k = r.choice(sorted(x for x in XLEAF if (x != prev_kind or x not in ("deflist", "fieldlist"))
+                                and (top or x not in TOP_ONLY_LEAVES) and x not in FIXED_ONLY_LEAVES))
             b = B(k, self.mk())
             b.p["x"] = [self.mk() for _ in range(XLEAF[k][0])]
+            if k in MOCK_LEAVES:
+                b.p["bb"] = r.choice([0, 0, 1, 2])
             return b
         if prev_kind in ("para", "para2", "heading", "code", "target", "quote", "dir", "div", "badrole", "baddir") and not in_item_first:
             kinds.append("icode")
@@ -148,7 +222,7 @@ class Gen:
     def block(self, depth, prev_kind, first_in=None):
         r = self.rng
         if depth >= self.max_depth or r.random() < 0.35:
-            return self.leaf(prev_kind, in_item_first=(first_in == "item"))
+            return self.leaf(prev_kind, in_item_first=(first_in == "item"), top=(depth == 1 and self.allow_include))
         opts = ["quote", "dir", "dir", "dir", "div"]
         if prev_kind not in ("blist", "olist"):
             opts += ["blist", "olist"]
@@ -166,23 +240,39 @@ class Gen:
             return B("div", self.mk(), self.seq(depth + 1, r.randint(1, 2)), blank_before=r.choice([0, 0, 1, 1, 2, 3]), blank_after=r.choice([0, 0, 1, 2]))
         if k == "include":
             return self.include(depth)
-        name = r.choice(["note", "note", "tip", "warning", "admonition"])
+        name = r.choice(["note", "note", "tip", "warning", "admonition", "epigraph", "pull-quote", "highlights",
+                         "topic", "sidebar", "compound", "container"])
         fence = "`" if first_in == "item" else r.choice(["`", "`", ":"])
         style = r.choice(["none", "none", "colon", "dash"])
+        if name in ("topic", "sidebar") and not (depth == 1 and self.allow_include):
+            name = "note"      # docutils allows these only directly in the document / a section
+        if name in NO_CLASS_OPT:
+            style = "none"
         nopts = r.randint(1, 2) if style != "none" else 0
-        kids = self.seq(depth + 1, r.randint(1, 3))
+        if name in QUOTED:
+            # block_quote() looks for an attribution ("-- x" after a blank line) in the raw lines: leaves only
+            kids = [self.leaf(None) for _ in range(r.randint(1, 3))]
+            kids = [k if k.kind in ("para", "para2", "code", "heading", "target", "badrole", "baddir", "para3", "html", "math")
+                    else B("para", k.mk) for k in kids]
+        else:
+            kids = self.seq(depth + 1, r.randint(1, 3))
         if kids[0].kind == "fieldlist":        # directly after the opening line it would be the directive's options
             kids[0] = B("para", kids[0].mk)
         bb = r.choice([0, 0, 1, 1, 2, 3])
         # a ':::' fence directly after the opening line or after ':key:' options would be read as an option line
         # (the renderer only handles it for a colon directive without options, by its prepended-line trick)
-        if not bb and kids[0].kind in ("div", "dir") and kids[0].p.get("fence", ":") == ":":
+        if not bb and (kids[0].kind in COLON_LEAVES or
+                       (kids[0].kind in ("div", "dir") and kids[0].p.get("fence", ":") == ":")):
             if not ((fence == ":" and style == "none") or style == "dash"):
                 bb = 1
         blk = B("dir", self.mk(), kids, name=name, fence=fence, style=style, nopts=nopts,
                  badopt=(style != "none" and r.random() < 0.25), blank_before=bb, blank_after=r.choice([0, 0, 1, 2]),
                  firstline=False)
-        if name != "admonition" and r.random() < 0.12:
+        if name in QUOTED and r.random() < 0.5:
+            blk.p["attrib"] = self.mk()
+        if name in ("container",):
+            return blk
+        if name not in TITLED and name not in ("container",) and r.random() < 0.12:
             # text on the first line is the first body line: keep it a paragraph of its own
             blk.p["firstline"], blk.p["blank_before"] = True, max(1, bb)
         return blk
@@ -226,6 +316,8 @@ def fence_heights(b):
         b.p["flen"] = 2 + hc
     elif b.kind in ("baddir", "include") + BACKTICK_LEAVES:
         hb = max(hb, 1)
+    elif b.kind in COLON_LEAVES:
+        hc = max(hc, 1)
     return hb, hc
 
 
@@ -289,8 +381,10 @@ def print_block(b, start, file, chain, files, rec):
         p = b.p
         f = p["fence"] * p["flen"]
         first = f + "{" + p["name"] + "}"
-        if p["name"] == "admonition":
+        if p["name"] in TITLED:
             first += f" Title {mk}"
+        elif p["name"] == "container":
+            first += " cls"
         elif p["firstline"]:
             first += f" firstline {mk}"
         opts = []
@@ -303,13 +397,18 @@ def print_block(b, start, file, chain, files, rec):
             opts = ["---"] + [f"{kk}: {vv}" for kk, vv in pairs] + ["---"]
         head = [first] + opts + [""] * p["blank_before"]
         flags = ["dir"]
-        if p["firstline"] and p["name"] != "admonition":
+        if p["firstline"] and p["name"] not in TITLED:
             flags.append("firstline-body")
         first_child = b.ch[0] if b.ch else None
         if p["fence"] == ":" and not opts and not p["blank_before"] and first_child is not None and \
                 first_child.kind in ("dir", "div") and first_child.p.get("fence", ":") == ":":
             flags.append("colon-nested-first")
         inner = print_seq(b.ch, start + len(head), file, chain + ((":".join(flags), b.mk, len(opts)),), files, rec)
+        if p.get("attrib"):
+            a = B("attrib", p["attrib"])
+            a.start, a.file, a.chain = start + len(head) + len(inner) + 1, file, chain + ((":".join(flags), b.mk, len(opts)),)
+            rec.append(a)
+            inner = inner + ["", f"-- Author mk{p['attrib']} {{rmk{p['attrib']}}}`x`"]
         return head + inner + [""] * p["blank_after"] + [f]
     if k == "include":
         p = b.p
@@ -349,7 +448,7 @@ def first_marker(b, files=None):
     """the first marker, in document order, that is visible as text inside the node of this construct
     (targets, unknown directives and empty includes leave no text)."""
     files = files or {}
-    if b.kind in ("target", "baddir"):
+    if b.kind in ("target", "baddir", "imagedir", "roledir", "metadir"):
         return None
     if b.kind == "lcomment":
         return b.mk
@@ -357,10 +456,13 @@ def first_marker(b, files=None):
         return first_of(files.get(b.p["fname"], {}).get("body", []), files)
     if b.kind in ("blist", "olist"):
         return first_of([c for it in b.ch for c in it], files)
-    if b.kind == "dir" and (b.p["name"] == "admonition" or b.p["firstline"]):
+    if b.kind == "attrib":
+        return b.mk
+    if b.kind == "dir" and (b.p["name"] in TITLED or b.p["firstline"]):
         return b.mk
     if b.kind in ("quote", "item", "dir", "div"):
-        return first_of(b.ch, files)
+        m = first_of(b.ch, files)
+        return m if m is not None else b.p.get("attrib")
     return b.mk
 
 
@@ -391,20 +493,32 @@ def expected_records(recs, main, files=None):
             nodes.append((ADM[b.p["name"]], fm, b.start, b.file, b.chain))
             if b.p["badopt"]:
                 warns.append((f"kmk{b.mk}", {b.start, b.start + 1}, b.file, b.chain, "option"))
-            if b.p["firstline"] and b.p["name"] != "admonition":
+            if b.p["firstline"] and b.p["name"] not in TITLED:
                 # the first-line text is a paragraph that starts on the directive's own line
                 nodes.append(("paragraph", b.mk, b.start, b.file, b.chain + (("dir:firstline-body", b.mk, 0),)))
+        elif b.kind == "attrib":
+            nodes.append(("attribution", b.mk, b.start, b.file, b.chain))
+            warns.append((f"rmk{b.mk}", {b.start}, b.file, b.chain, "role"))
         elif b.kind == "baddir":
             warns.append((f"dmk{b.mk}", {b.start}, b.file, b.chain, "directive"))
         elif b.kind == "include":
             pass
         elif b.kind in XLEAF:
-            for tag, which, off in XLEAF[b.kind][2]:
+            for rec_ in XLEAF[b.kind][2]:
+                tag, which, off = rec_[:3]
                 cell = tag in ("row", "entry") or (tag == "paragraph" and b.kind in ("table", "tabledir"))
                 extra = (("table-cell", b.mk),) if cell else (("docutils-code-block", b.mk),) if b.kind == "codeblock" else ()
-                nodes.append((tag, _m(b, which), b.start + off, b.file, b.chain + extra))
+                if len(rec_) > 3 and rec_[3] == "inherit":
+                    extra = (("docutils-code-block", b.mk),)      # the directive sets no line itself: own line or None
+                if b.kind == "parsedlit":
+                    extra = (("parsed-literal", b.mk, b.p.get("bb", 0)),)
+                if b.kind == "contentsdir":
+                    extra = (("contents-topic", b.mk),)
+                nodes.append((tag, _m(b, which), b.start + _off(b, off), b.file, b.chain + extra))
             for pre, which, off, what in XWARN.get(b.kind, []):
-                warns.append((f"{pre}{_m(b, which)}", {b.start + off}, b.file, b.chain, what))
+                extra = (("parsed-literal", b.mk, b.p.get("bb", 0)),) if b.kind == "parsedlit" else \
+                    (("directive-title", b.mk),) if b.kind in ("rubricdir", "topictitle", "admtitle", "contentsdir") else ()
+                warns.append((pre if which is None else f"{pre}{_m(b, which)}", {b.start + _off(b, off)}, b.file, b.chain + extra, what))
         else:
             for t in TAGS[b.kind]:
                 nodes.append((t, fm, b.start, b.file, b.chain))
@@ -446,7 +560,8 @@ MK = re.compile(r"mk(\d+)")
 NODE_TAGS = {"paragraph", "title", "section", "rubric", "literal_block", "target", "block_quote", "bullet_list",
              "enumerated_list", "list_item", "container", "note", "tip", "warning", "admonition",
              "table", "row", "entry", "definition_list", "definition_list_item", "term", "definition", "field_list", "field",
-             "footnote", "comment", "raw", "math_block", "reference", "image", "figure", "caption"}
+             "footnote", "comment", "raw", "math_block", "reference", "image", "figure", "caption",
+             "attribution", "topic", "sidebar", "compound", "line_block"}
 
 
 def observe(text, files):
@@ -479,7 +594,7 @@ def observe(text, files):
                     walk(c)
         walk(doc)
         warns = [(w["msg"], w["line"], os.path.basename(w["src"])) for w in parse_warnings(ws)
-                 if (w["tag"] or "").startswith("myst.")]
+                 if (w["tag"] or "").startswith("myst.") or w["level"] in ("ERROR", "SEVERE")]
     return out, warns
 
 
@@ -514,18 +629,28 @@ def classify(tag, chain, delta):
     kinds = [c[0] for c in chain]
     if "table-cell" in kinds:
         return "line:table-cell"
+    if "parsed-literal" in kinds:
+        # docutils' ParsedLiteral: node.line = content_offset + 1 and inline_text(text, self.lineno) - written for rST's
+        # absolute offsets, so with MyST's relative offset both ignore where the body really starts (open finding)
+        return "line:parsed-literal"
     cands = delta if isinstance(delta, list) else [delta]
+    if "contents-topic" in kinds and tag == "topic" and -1 in cands:
+        # docutils' Contents: topic.line = get_source_and_line()[1] - 1, written for rST where the state machine has
+        # moved past the directive's first line; the mock answers with the directive's line (open finding)
+        return "line:contents-topic:-1"
     # lines inside an included file are relative to that file: only what encloses the construct INSIDE the file counts
     last_inc = max((i for i, c in enumerate(chain) if c[0].startswith("include:")), default=None)
     inner_chain = chain if last_inc is None else chain[last_inc:]
     fl = [c for c in inner_chain if "firstline-body" in c[0]]
     incs = [c for c in inner_chain if c[0].startswith("include:")]
-    if fl or incs:
-        expected = sum(1 - (c[2] if len(c) > 2 else 0) for c in fl) + len(incs)
+    # inline text of a directive title (state.inline_text(title, self.lineno)) is reported one line too low (open finding)
+    title = [c for c in inner_chain if c[0] == "directive-title"]
+    if fl or incs or title:
+        expected = sum(1 - (c[2] if len(c) > 2 else 0) for c in fl) + len(incs) + len(title)
         if expected in cands:
-            return "line:dir-firstline-body" if fl else "line:include:+1"
+            return "line:dir-firstline-body" if fl else "line:include:+1" if incs else "line:directive-title:+1"
     d = min((x for x in cands if isinstance(x, int)), key=abs, default="none")
-    inner = kinds[-1] if kinds else "top"
+    inner = "attribution" if tag == "attribution" else kinds[-1] if kinds else "top"
     return f"line:{inner}:{d:+d}" if isinstance(d, int) else f"line:{inner}:{d}"
 
 
@@ -561,7 +686,7 @@ def check_case(ctx, case):
             structure_ok = False
             continue
         for (eline, esrc, chain), (gline, gsrc) in zip(exps, gots):
-            if gline is None and key[0] == "literal_block" and any(c[0] == "docutils-code-block" for c in chain):
+            if gline is None and any(c[0] == "docutils-code-block" for c in chain):
                 # docutils' CodeBlock sets no line itself: the node only inherits document.current_line (= the
                 # directive's line) when its parent is already attached to the document, i.e. at top level
                 continue
@@ -589,7 +714,8 @@ def check_case(ctx, case):
             if l not in lines:
                 delta = [l - x for x in sorted(lines)] if isinstance(l, int) else "none"
                 sig = classify("warning", chain, delta)
-                ctx.fail(sig if sig in ("line:include:+1", "line:dir-firstline-body", "line:table-cell") else "warning-" + sig, case, f"warning naming {needle} carries line {l}, expected {sorted(lines)} in {src}",
+                ctx.fail(sig if sig in ("line:include:+1", "line:dir-firstline-body", "line:table-cell", "line:parsed-literal",
+                                    "line:directive-title:+1") else "warning-" + sig, case, f"warning naming {needle} carries line {l}, expected {sorted(lines)} in {src}",
                          expected={"lines": sorted(lines), "source": src}, observed={"line": l, "source": s})
                 ok = False
             elif s != src:
@@ -632,6 +758,44 @@ def fixed_cases():
                     "files": {"inc2.md": {"pre": [para(1001), para(1002)], "body": [para(1003), {"kind": "heading", "mk": 1004, "p": {}, "ch": []},
                                                                                    {"kind": "badrole", "mk": 1005, "p": {}, "ch": []}],
                                           "post": [para(1006)], "mode": mode}}})
+    out += mock_method_cases()
+    return out
+
+
+def mock_method_cases():
+    """Round 4: every docutils / Sphinx directive that reaches a line-carrying method of MockState / MockStateMachine /
+    MockInliner other than nested_parse, with 0-2 blank lines before its body, at top level and nested in a block
+    quote, a list item and an admonition."""
+    def para(n):
+        return {"kind": "para", "mk": n, "p": {}, "ch": []}
+
+    def wrap(how, inner):
+        if how == "top":
+            return [para(90)] + inner
+        if how == "quote":
+            return [para(90), {"kind": "quote", "mk": 91, "p": {}, "ch": [para(92)] + inner}]
+        if how == "item":
+            return [{"kind": "blist", "mk": 91, "p": {"tight": False}, "ch": [[para(92)] + inner]}]
+        return [{"kind": "dir", "mk": 91, "p": dict(name="note", fence="`", style="none", nopts=0, badopt=False, blank_before=1,
+                                                    blank_after=0, firstline=False), "ch": [para(92)] + inner}]
+    out = []
+    for how in ("top", "quote", "item", "note"):
+        for bb in (0, 1, 2):
+            # block_quote + attribution (+ get_source_and_line)
+            for name in QUOTED:
+                for fence in ("`", ":"):
+                    q = dict(name=name, fence=fence, style="none", nopts=0, badopt=False, blank_before=bb, blank_after=0,
+                             firstline=False, attrib=7)
+                    kids = [para(2), {"kind": "heading", "mk": 3, "p": {}, "ch": []}, {"kind": "baddir", "mk": 4, "p": {}, "ch": []},
+                            {"kind": "badrole", "mk": 5, "p": {}, "ch": []}]
+                    out.append({"doc": wrap(how, [{"kind": "dir", "mk": 1, "p": q, "ch": kids}]), "files": {}})
+            # inline_text / line_block / parse_directive_block / nested_list_parse-style bodies
+            for k in MOCK_LEAVES:
+                if k in TOP_ONLY_LEAVES and how != "top":
+                    continue
+                n = XLEAF[k][0]
+                out.append({"doc": wrap(how, [{"kind": k, "mk": 1, "p": {"x": list(range(2, 2 + n)), "bb": bb}, "ch": []}]),
+                            "files": {}})
     return out
 
 
